@@ -24,8 +24,8 @@ PID = "C02"
 PARALLEL = 6
 IMPORTS = "From Verif Require Import C02.Model C02.Spec C02.Corr.\nFrom VerifGen Require Import C02Base."
 CASE_TYPE = "C02.Corr.case"
-RUNNER = "C02.Corr.run_repaired" if os.environ.get("VERIF_C02_MODEL") == "repaired" else "C02.Corr.run"
-FINDING_CLASSES = {1: "C02-F1", 2: "C02-F2"}
+RUNNER = "C02.Corr.run_v0" if os.environ.get("VERIF_C02_MODEL") == "v0" else "C02.Corr.run"
+FINDING_CLASSES = {1: "C02-F1", 2: "C02-F2"}   # both fixed: a case in either class is a VIOLATION
 RULE = ("documents derived from genuinely signed Responses (Response-signed, assertion-signed, both; plain and "
         "encrypted; two messages, three key pairs, alternative algorithms): complete catalogue = XSW placements "
         "(sibling before/after, Extensions, Advice, ds:Object, SubjectConfirmationData, AttributeValue, StatusDetail; "
@@ -36,9 +36,8 @@ RULE = ("documents derived from genuinely signed Responses (Response-signed, ass
         "tree surgery (move / copy / delete / re-ID / wrap / splice).  Observed per document: accepted?, reported "
         "fields, and from the xmlsec1 stand-in's log which element was digested under which certificate.  "
         "non-trivial = distinct (family, policy, accepted, digested-element paths)")
-TRUSTED = ["xmlsec1 stand-in (harness/standin/xmlsec1.py) with xmlsec1's child-order strictness applied in front of it "
-           "(harness/c02.py strict_ok = xmldsig.c xmlSecDSigCtxProcessSignatureNode / SignedInfoNode / ReferenceNode); "
-           "finding C02-F1 depends on its xmlSecFindNode semantics (first ds:Signature at/below --node-id)",
+TRUSTED = ["xmlsec1 stand-in (harness/standin/xmlsec1.py: xmlSecFindNode = first ds:Signature at/below --node-id, "
+           "duplicate ID = error, xmldsig.c child-order strictness); the fixed finding C02-F1 depended on these semantics",
            "abstraction tree <-> XML text of harness/c02.py (serialise -> parse = identity is checked for every document)",
            "oracle bits: content_ok = the real acceptance code run with _check_signature replaced by the identity "
            "(all non-signature checks: C04-C06), schema bits = the real validate_doc_with_schema on str(item)"]
@@ -207,72 +206,29 @@ def size(t):
 
 
 # ---------------------------------------------------------------------------- stand-in wrapper
-_CAPTURE = {"decrypted": [], "verify_inputs": []}
-
-
-def strict_ok(sig):
-    """xmlsec1 enforces the child order of ds:Signature / SignedInfo / Reference / Transforms
-    (xmldsig.c); the stand-in uses find() and would tolerate extra or re-ordered children."""
-    def names(el):
-        return [_name(c.tag) for c in el if isinstance(c.tag, str)]
-
-    def els(el):
-        return [c for c in el if isinstance(c.tag, str)]
-
-    n = names(sig)
-    if len(n) < 2 or n[0] != "ds:SignedInfo" or n[1] != "ds:SignatureValue":
-        return False
-    rest = n[2:]
-    if rest and rest[0] == "ds:KeyInfo":
-        rest = rest[1:]
-    if any(x != "ds:Object" for x in rest):
-        return False
-    si = els(sig)[0]
-    sn = names(si)
-    if len(sn) < 3 or sn[0] != "ds:CanonicalizationMethod" or sn[1] != "ds:SignatureMethod":
-        return False
-    if any(x != "ds:Reference" for x in sn[2:]):
-        return False
-    for ref in els(si)[2:]:
-        rn = names(ref)
-        if rn == ["ds:Transforms", "ds:DigestMethod", "ds:DigestValue"]:
-            if any(x != "ds:Transform" for x in names(els(ref)[0])):
-                return False
-        elif rn != ["ds:DigestMethod", "ds:DigestValue"]:
-            return False
-    return True
+_CAPTURE = {"decrypted": []}
 
 
 class C02Popen:
-    """the stand-in's FakePopen + xmlsec1's node-order strictness + capture of decrypt outputs"""
+    """the stand-in's FakePopen + capture of what C02 needs to observe: the digest of every --verify input (to
+    tell the received text from the decrypted text) and the output of every successful --decrypt"""
 
     def __init__(self, com_list, stderr=None, stdout=None, **kw):
         m = env.standin()
         argv = list(com_list[1:])
-        pre_fail = False
-        cmd = None
+        cmd, opts = None, {}
+        sha = None
         try:
             cmd, opts = m.parse_args(argv)
             if cmd == "verify" and opts["files"]:
                 with open(opts["files"][-1], "rb") as f:
-                    data = f.read()
-                _CAPTURE["verify_inputs"].append(hashlib.sha1(data).hexdigest())
-                root = m._parse(data)
-                ids = m._register_ids(root, opts["id_attrs"])
-                start = m._select_start(root, ids, opts.get("node_id"))
-                sig = m._find_first(start, m.DS, "Signature")
-                if sig is not None and not strict_ok(sig):
-                    pre_fail = True
+                    sha = hashlib.sha1(f.read()).hexdigest()
         except Exception:
             pass
-        if pre_fail:
-            m._log({"op": "error", "msg": "unexpected node in ds:Signature"})
-            self.returncode, self._out, self._err = 1, b"", b"Error: unexpected node\n"
-            return
         n_before = len(m.LOG)
         self.returncode, self._out, self._err = m.main(argv)
-        if cmd == "verify" and len(m.LOG) > n_before and _CAPTURE["verify_inputs"]:
-            m.LOG[-1]["input_sha1"] = _CAPTURE["verify_inputs"][-1]
+        if cmd == "verify" and len(m.LOG) > n_before and sha is not None:
+            m.LOG[-1]["input_sha1"] = sha
         if cmd == "decrypt" and self.returncode == 0:
             try:
                 out = opts.get("output")
@@ -1361,7 +1317,6 @@ def observe(case):
         saml2.sigver.Popen = C02Popen
         del m.LOG[:]
         _CAPTURE["decrypted"] = []
-        _CAPTURE["verify_inputs"] = []
         accepted, r, si, exc = run_sp(sp, xml)
         log = list(m.LOG)
         decrypted = list(_CAPTURE["decrypted"])
@@ -1525,6 +1480,47 @@ def histogram(cases, observed):
         s = size(c["doc"])
         h["doc_nodes"]["<50" if s < 50 else "50-99" if s < 100 else "100-199" if s < 200 else ">=200"] += 1
     return h
+
+
+def search(ctx, disagreeing):
+    """model and implementation disagree (or a proof broke): look for an input on which the implementation's
+    output FAILS the spec outside the known classes — neighbours of the disagreeing documents (1-3 surgery steps,
+    every policy) and the wrapping catalogue applied to them."""
+    install()
+    B = base()
+    rng = ctx.rng
+    cand = []
+    seeds = [c for c in disagreeing if "doc" in c][:12]
+    for c in seeds:
+        for pol in ("R", "A", "B", "E"):
+            cand.append({"family": "search", "name": "same-doc", "policy": pol, "doc": c["doc"]})
+        for where in PLACES:
+            for sigp in ("copied", "moved", "moved+decoy", "stripped"):
+                for f in (xsw_assertion, xsw_response):
+                    try:
+                        d = f(c["doc"], where, "fresh", sigp)
+                    except Exception:
+                        d = None
+                    if d is not None:
+                        cand.append({"family": "search", "name": "xsw:%s:%s" % (where, sigp), "policy": c["policy"],
+                                     "doc": normalise_enc(d)})
+        for i in range(40):
+            donor = B[rng.choice(sorted(B))]
+            d, desc = random_surgery(rng, c["doc"], donor, rng.choice([1, 1, 2, 3]), rng.random() < 0.5)
+            if size(d) <= 400:
+                cand.append({"family": "search", "name": desc, "policy": rng.choice([c["policy"], "R", "A", "E"]), "doc": d})
+    if not cand:
+        return None
+    obs = common.observe_all(__import__("harness.c02", fromlist=["x"]), cand)
+    ok = [(c, o) for c, o in zip(cand, obs) if "error" not in o]
+    terms = [coq_case(c, o) for c, o in ok]
+    results, errors = common.eval_cases(PID, IMPORTS, CASE_TYPE, RUNNER, terms, tag="search")
+    known = {(k["property"], k.get("class")) for k in common.load_known() if k.get("status") == "open"}
+    bad = sorted(i for i, code in results if code == 2 or (code >= 10 and (PID, code - 10) not in known))
+    if bad:
+        i = min(bad, key=lambda j: size(ok[j][0]["doc"]))
+        return ok[i]
+    return None
 
 
 def explain_term(t):
